@@ -63,12 +63,12 @@ fn main() -> Result<()> {
         if !mutators.is_empty() {
             generator = generator
                 .with_mutators(mutators)
-                .with_mutation_rate(args.mutation_rate)
-                .with_unsafe_mutations(args.unsafe_mutations);
+                .with_mutation_rate(args.mutation_rate);
         }
 
-        // apply EXT and buffer opcode flags
+        // apply unsafe-mutations, EXT and buffer opcode flags
         generator = generator
+            .with_unsafe_mutations(args.unsafe_mutations)
             .with_ext_opcodes(args.allow_ext)
             .with_buffer_opcodes(args.allow_buffer);
 
@@ -119,12 +119,12 @@ fn main() -> Result<()> {
                             .collect();
                     generator = generator
                         .with_mutators(thread_mutators)
-                        .with_mutation_rate(mutation_rate)
-                        .with_unsafe_mutations(unsafe_mutations);
+                        .with_mutation_rate(mutation_rate);
                 }
 
-                // apply EXT and buffer opcode flags
+                // apply unsafe-mutations, EXT and buffer opcode flags
                 generator = generator
+                    .with_unsafe_mutations(unsafe_mutations)
                     .with_ext_opcodes(allow_ext_opcodes)
                     .with_buffer_opcodes(allow_buffer_opcodes);
 
